@@ -1,6 +1,5 @@
 from __future__ import annotations
 
-import json
 from os.path import isfile
 from pathlib import Path
 from typing import TYPE_CHECKING
@@ -118,7 +117,9 @@ def target_cache_file_is_up_to_date(
 
     try:
         cache = deserialise(Path(cache_filepath).read_text(), type=CacheableResults)
-    except json.decoder.JSONDecodeError:
+    except Exception:
+        # Not valid JSON, not decodable, or not of the shape of a cache document
+        # (e.g. a truncated or hand-edited file): the cache is stale, not fatal.
         error.info(f"cache file {str(cache_filepath)} is malformed")
         return False
 
